@@ -1,7 +1,7 @@
 (* C06 driver: one case per input line, one result line per case (formats: see props/C06.py).
    argv[1] = cases, argv[2] = "-" (unused), argv[3] = variant: repaired | def_rguard (| defective | lns_found | def_restore: historical) *)
 let flags_of = function
-  | "def_rguard" -> def_rguard
+  | "def_rguard" -> def_rguard        (* historical: before 7efc399 *)
   | "def_restore" -> def_restore      (* historical: before 8205ad2 *)
   | "defective" -> defective          (* historical: pkg/ppp + PPPoE before 54fb851 / 95b0af2 / bc32486 *)
   | "lns_found" -> lns_found          (* historical: LNS before ce9ad2f *)
@@ -162,6 +162,7 @@ let () =
               EvReq (n_of_int (int_of_string (String.sub ev 1 (i - 1))),
                      unhex (String.sub ev (i + 1) (String.length ev - i - 1))) in
           let (s', acts) = sess_step fl s e in
+          if s.s_owner = Ended then ("ended" :: acc, s') else
           (Printf.sprintf "%s up=%d a=%s pa=%s pn=%s" (show_acts ~callbacks:false ~req:(Some s'.s_lastreq) acts) (if s'.s_open then 1 else 0) (show_addr s'.s_addr) (show_addr s'.s_cfg.ic_assigned) (show_addr s'.s_peer.pp_addr) :: acc, s'))
           ([first], s0) evs in
       print_endline (String.concat " | " (List.rev outs))
@@ -177,6 +178,7 @@ let () =
              | Sta id -> Some (Printf.sprintf "sta:%d" (int_of_n id))
              | _ -> None) acts in if l = [] then "-" else String.concat " " l)
           (if s.vs_open then 1 else 0) (hexs s.vs_obj.vo_local) in
+      let ended = ref false in
       let (s1, a1) = v6sess_step (v6sess0 (List.init 8 (fun _ -> N0))) (V6Start m) in
       let (outs, _) = List.fold_left (fun (acc, s) ev ->
           let tl = String.sub ev 1 (String.length ev - 1) in
@@ -188,10 +190,12 @@ let () =
             | 'k' -> V6Ack
             | 'n' -> V6Nak (unhex tl)
             | 'j' -> V6Rej (unhex tl)
-            | 'R' -> V6Start m
+            | 'R' -> V6Down          (* PPPoE: the renegotiation ends the session before any re-authentication *)
             | 'D' -> V6Down
             | _ -> failwith "ev" in
-          let (s', acts) = v6sess_step s e in (show s' acts :: acc, s')) ([show s1 a1], s1) evs in
+          if !ended then ("ended" :: acc, s) else begin
+            (if ev.[0] = 'R' || ev.[0] = 'D' then ended := true);
+            let (s', acts) = v6sess_step s e in (show s' acts :: acc, s') end) ([show s1 a1], s1) evs in
       print_endline (String.concat " | " (List.rev outs))
     | _ -> print_endline "badline"
     with e -> print_endline ("modelerror " ^ Printexc.to_string e)) lines
